@@ -258,4 +258,205 @@ theorem fptoint_eq (a : Nat) (h1 : 1 ≤ expOf a) :
     Nat.pow_one]
   rfl
 
+theorem b2n_mod2 (x : Bool) : b2n x % 2 = b2n x := by cases x <;> decide
+
+/-- splitting `m·X` at `2^k·X`: quotient and remainder -/
+theorem mul_split (m k X P : Nat) (hP : P = 2^k * X) (hX : 0 < X) :
+    m * X = (m / 2^k) * P + (m % 2^k) * X ∧ (m % 2^k) * X < P ∧ ((m % 2^k) * X ≠ 0 ↔ m % 2^k ≠ 0) := by
+  have hk : 0 < 2^k := Nat.two_pow_pos k
+  have hdm := Nat.div_add_mod m (2^k)
+  have hr : m % 2^k < 2^k := Nat.mod_lt _ hk
+  generalize m / 2^k = q at *
+  generalize m % 2^k = r at *
+  generalize 2^k = K at *
+  subst hP
+  refine ⟨?_, Nat.mul_lt_mul_of_pos_right hr hX, ?_⟩
+  · rw [← hdm, Nat.add_mul, Nat.mul_assoc, Nat.mul_left_comm]
+  · constructor
+    · intro h h0; rw [h0, Nat.zero_mul] at h; exact h rfl
+    · intro h h0
+      rcases Nat.mul_eq_zero.mp h0 with h1 | h1
+      · exact h h1
+      · omega
+
+/-- the shifter of FPtoInt_SP for exponent fields 127..150: `shifted = q·2^32 + t`, `q = trunc |x|`, `t ≠ 0 ⇔ discarded bits` -/
+theorem shift_view_right (m e : Nat) (hm : m < 2^24) (h1 : 127 ≤ e) (h2 : e ≤ 150) :
+    ∃ q t, m * 2^32 / 2^(150 - e) % 2^64 = q * 2^32 + t ∧ t < 2^32 ∧ q < 2^31 ∧
+      m * 2^(e - 1) / 2^149 = q ∧ (m * 2^(e - 1) % 2^149 ≠ 0 ↔ t ≠ 0) := by
+  have hk : 150 - e ≤ 23 := by omega
+  generalize hkk : 150 - e = k at *
+  have he : e - 1 = 149 - k := by omega
+  rw [he]
+  have h32 : 2^32 = 2^k * 2^(32 - k) := two_pow_split k 32 (by omega)
+  have h149 : 2^149 = 2^k * 2^(149 - k) := two_pow_split k 149 (by omega)
+  have hX : 0 < 2^(32 - k) := Nat.two_pow_pos _
+  have hY : 0 < 2^(149 - k) := Nat.two_pow_pos _
+  obtain ⟨a1, a2, a3⟩ := mul_split m k (2^(32 - k)) (2^32) h32 hX
+  obtain ⟨b1, b2, b3⟩ := mul_split m k (2^(149 - k)) (2^149) h149 hY
+  have hq : m / 2^k ≤ m := Nat.div_le_self _ _
+  refine ⟨m / 2^k, (m % 2^k) * 2^(32 - k), ?_, a2, by simp only [Nat.reducePow] at *; omega, ?_, ?_⟩
+  · have e1 : m * 2^32 / 2^k = m * 2^(32 - k) := by
+      rw [h32, ← Nat.mul_assoc, Nat.mul_comm m, Nat.mul_assoc, Nat.mul_div_cancel_left _ (Nat.two_pow_pos k)]
+    rw [e1, a1]
+    apply Nat.mod_eq_of_lt
+    simp only [Nat.reducePow] at *
+    omega
+  · rw [b1]
+    generalize m % 2 ^ k * 2 ^ (149 - k) = t' at *
+    generalize m / 2^k = q at *
+    simp only [Nat.reducePow] at *
+    omega
+  · rw [b1, a3, ← b3]
+    generalize m % 2 ^ k * 2 ^ (149 - k) = t' at *
+    generalize m / 2^k = q at *
+    have : (q * 2^149 + t') % 2^149 = t' := by
+      rw [Nat.mul_comm, Nat.mul_add_mod]; exact Nat.mod_eq_of_lt b2
+    rw [this]
+/-- … and for exponent fields 151..157 (left shift by 1..7, nothing discarded) -/
+theorem shift_view_left (m e : Nat) (hm : m < 2^24) (h1 : 151 ≤ e) (h2 : e ≤ 157) :
+    ∃ q t, m * 2^32 * 2^(e - 150) % 2^64 = q * 2^32 + t ∧ t < 2^32 ∧ q < 2^31 ∧
+      m * 2^(e - 1) / 2^149 = q ∧ (m * 2^(e - 1) % 2^149 ≠ 0 ↔ t ≠ 0) := by
+  refine ⟨m * 2^(e - 150), 0, ?_⟩
+  have : e = 151 ∨ e = 152 ∨ e = 153 ∨ e = 154 ∨ e = 155 ∨ e = 156 ∨ e = 157 := by omega
+  rcases this with h | h | h | h | h | h | h <;> subst h <;> simp only [Nat.reducePow, Nat.reduceSub] at * <;> omega
+
+/-- what remains once the shifter is known: sign handling, p_lost, invalid, on the atoms `q`, `t` -/
+theorem fptoint_fin (s q t S : Nat) (hs : s < 2) (hS : S = q * 2^32 + t) (ht : t < 2^32) (hq : q < 2^31) :
+    (if s = 1 then Bits.put 33 (-((S / 2^32 : Nat) : Int)) else S / 2^32) % 2^33 % 2^32
+        = Bits.put 32 ((if s = 1 then -1 else 1) * (q : Int)) ∧
+    (S % 2^33 ≠ 0 ↔ (t ≠ 0 ∨ q % 2 = 1)) := by
+  subst hS
+  unfold Bits.put
+  simp only [Nat.reducePow, Int.reducePow] at *
+  have : s = 0 ∨ s = 1 := by omega
+  rcases this with h | h <;> subst h <;> simp <;> omega
+
+/-- exponent fields 127..157 (1 ≤ |x| < 2^31) -/
+theorem fptoint_mid (a : Nat) (h1 : 127 ≤ expOf a) (h2 : expOf a ≤ 157) :
+    (fptoint a).denorm = 0 ∧ (fptoint a).invalid = 0 ∧ (fptoint a).r = f2iR a ∧
+    (fptoint a).p_lost = b2n (f2iLost a || decide (mag a / 2^149 % 2 = 1)) ∧ fitsInt a = true := by
+  have hEq := fptoint_eq a (by omega)
+  simp only [] at hEq
+  rw [hEq]
+  clear hEq
+  unfold fitsInt f2iR f2iLost mag mant
+  have hf := fracOf_lt a
+  have hs := signOf_lt a
+  generalize expOf a = e at *
+  generalize fracOf a = f at *
+  generalize signOf a = s at *
+  have hm : 2^23 + f < 2^24 := by simp only [Nat.reducePow] at *; omega
+  generalize 2^23 + f = m at *
+  simp only [b2n_mod2]
+  have hsre : (e + 129) % 256 / 128 % 2 = 0 := by omega
+  simp only [hsre, Nat.zero_ne_one, if_false, Nat.zero_or]
+  have hinv : b2n (decide (Bits.toSigned 8 30 < Bits.toSigned 8 ((e + 129) % 256))) = 0 := by
+    rw [show (0:Nat) = b2n false from rfl, b2n_inj]
+    unfold Bits.toSigned
+    simp only [Nat.reducePow, Nat.reduceSub, decide_eq_false_iff_not]
+    omega
+  -- the shifter
+  have hview : ∃ q t, (if (279 - (e + 129) % 256) % 256 / 128 % 2 = 1 then m * 2 ^ 32 * 2 ^ (((e + 129) % 256 + 233) % 256) % 2 ^ 64
+        else m * 2 ^ 32 / 2 ^ ((279 - (e + 129) % 256) % 256) % 2 ^ 64) = q * 2^32 + t ∧ t < 2^32 ∧ q < 2^31 ∧
+      m * 2^(e - 1) / 2^149 = q ∧ (m * 2^(e - 1) % 2^149 ≠ 0 ↔ t ≠ 0) := by
+    by_cases hr : e ≤ 150
+    · rw [if_neg (by omega), show (279 - (e + 129) % 256) % 256 = 150 - e by omega]
+      exact shift_view_right m e hm h1 hr
+    · rw [if_pos (by omega), show ((e + 129) % 256 + 233) % 256 = e - 150 by omega]
+      exact shift_view_left m e hm (by omega) h2
+  obtain ⟨q, t, v1, v2, v3, v4, v5⟩ := hview
+  generalize (if (279 - (e + 129) % 256) % 256 / 128 % 2 = 1 then m * 2 ^ 32 * 2 ^ (((e + 129) % 256 + 233) % 256) % 2 ^ 64
+        else m * 2 ^ 32 / 2 ^ ((279 - (e + 129) % 256) % 256) % 2 ^ 64) = S at *
+  obtain ⟨f1, f2⟩ := fptoint_fin s q t S hs v1 v2 v3
+  refine ⟨trivial, ?_, ?_, ?_, ?_⟩
+  · rw [hinv]
+  · rw [f1, v4]
+  · rw [b2n_mod2, b2n_inj, Bool.eq_iff_iff]
+    simp only [Bool.or_eq_true, decide_eq_true_eq]
+    rw [f2, v4, v5]
+  · simp only [decide_eq_true_eq]
+    have : m * 2^(e-1) < 2^24 * 2^156 :=
+      Nat.mul_lt_mul_of_lt_of_le hm (Nat.pow_le_pow_right (by decide) (by omega)) (Nat.two_pow_pos _)
+    simpa using this
+
+/-- exponent fields 158..254 (|x| ≥ 2^31): flagged invalid -/
+theorem fptoint_big (a : Nat) (h1 : 158 ≤ expOf a) (h2 : expOf a ≤ 254) :
+    (fptoint a).denorm = 0 ∧ (fptoint a).invalid = 1 ∧ fitsInt a = false := by
+  have hEq := fptoint_eq a (by omega)
+  simp only [] at hEq
+  rw [hEq]
+  clear hEq
+  simp only []
+  unfold fitsInt mag mant
+  generalize expOf a = e at *
+  have hsre : (e + 129) % 256 / 128 % 2 = 0 := by omega
+  have hinv : b2n (decide (Bits.toSigned 8 30 < Bits.toSigned 8 ((e + 129) % 256))) = 1 := by
+    rw [show (1:Nat) = b2n true from rfl, b2n_inj]
+    unfold Bits.toSigned
+    simp only [Nat.reducePow, Nat.reduceSub, decide_eq_true_eq]
+    omega
+  refine ⟨trivial, ?_, ?_⟩
+  · simp only [hsre, hinv, Nat.zero_ne_one, if_false, Nat.zero_or]
+  · simp only [decide_eq_false_iff_not, Nat.not_lt]
+    have : 2^23 * 2^157 ≤ (2^23 + fracOf a) * 2^(e - 1) :=
+      Nat.mul_le_mul (by omega) (Nat.pow_le_pow_right (by decide) (by omega))
+    simpa using this
+
+/-- exponent fields 1..126 (0 < |x| < 1): result 0, precision lost -/
+theorem fptoint_small (a : Nat) (h1 : 1 ≤ expOf a) (h2 : expOf a ≤ 126) :
+    (fptoint a).denorm = 0 ∧ (fptoint a).invalid = 0 ∧ (fptoint a).r = f2iR a ∧
+    (fptoint a).p_lost = b2n (f2iLost a || decide (mag a / 2^149 % 2 = 1)) ∧ fitsInt a = true := by
+  have hEq := fptoint_eq a h1
+  simp only [] at hEq
+  rw [hEq]
+  clear hEq
+  simp only []
+  have hmagpos := mag_pos a
+  unfold fitsInt f2iR f2iLost
+  unfold mag mant at *
+  have hf := fracOf_lt a
+  have hs := signOf_lt a
+  generalize expOf a = e at *
+  generalize fracOf a = f at *
+  generalize signOf a = s at *
+  have hm : 2^23 + f < 2^24 := by simp only [Nat.reducePow] at *; omega
+  generalize 2^23 + f = m at *
+  have hmag : m * 2^(e - 1) < 2^149 := by
+    have : m * 2^(e-1) < 2^24 * 2^125 :=
+      Nat.mul_lt_mul_of_lt_of_le hm (Nat.pow_le_pow_right (by decide) (by omega)) (Nat.two_pow_pos _)
+    simpa using this
+  have hsre : (e + 129) % 256 / 128 % 2 = 1 := by omega
+  have hinv : b2n (decide (Bits.toSigned 8 30 < Bits.toSigned 8 ((e + 129) % 256))) = 0 := by
+    rw [show (0:Nat) = b2n false from rfl, b2n_inj]
+    unfold Bits.toSigned
+    simp only [Nat.reducePow, Nat.reduceSub, decide_eq_false_iff_not]
+    omega
+  have hsh : (if (279 - (e + 129) % 256) % 256 / 128 % 2 = 1 then m * 2 ^ 32 * 2 ^ (((e + 129) % 256 + 233) % 256) % 2 ^ 64
+        else m * 2 ^ 32 / 2 ^ ((279 - (e + 129) % 256) % 256) % 2 ^ 64) / 2^32 = 0 := by
+    apply Nat.div_eq_of_lt
+    by_cases hr : e ≤ 22
+    · rw [if_pos (by omega), show ((e + 129) % 256 + 233) % 256 = 64 + (e + 42) by omega, Nat.pow_add,
+        ← Nat.mul_assoc, Nat.mul_comm _ (2^64), Nat.mul_assoc, Nat.mul_assoc, Nat.mul_mod_right]
+      decide
+    · rw [if_neg (by omega), show (279 - (e + 129) % 256) % 256 = 24 + (126 - e) by omega, Nat.pow_add,
+        ← Nat.div_div_eq_div_mul]
+      have h1 : m * 2^32 / 2^24 / 2^(126 - e) ≤ m * 2^32 / 2^24 := Nat.div_le_self _ _
+      have h2 : m * 2^32 / 2^24 / 2^(126 - e) % 2^64 ≤ m * 2^32 / 2^24 / 2^(126 - e) := Nat.mod_le _ _
+      generalize m * 2^32 / 2^24 / 2^(126 - e) = Z at *
+      simp only [Nat.reducePow] at *
+      omega
+  refine ⟨trivial, ?_, ?_, ?_, ?_⟩
+  · simp only [hsre, hinv, if_true, Nat.zero_or]
+  · rw [hsh, Nat.div_eq_of_lt hmag, hsre]
+    have : s = 0 ∨ s = 1 := by omega
+    rcases this with h | h <;> subst h <;> decide
+  · simp only [hsre, if_true, b2n_mod2]
+    have e1 : ∀ x : Bool, (1 ||| b2n x) % 2 = 1 := fun x => by cases x <;> decide
+    rw [e1, Nat.mod_eq_of_lt hmag]
+    have : decide (m * 2^(e-1) ≠ 0) = true := by simp; omega
+    rw [this]; rfl
+  · simp only [decide_eq_true_eq]
+    have : (2:Nat)^149 ≤ 2^180 := by decide
+    omega
+
 end C13
